@@ -590,6 +590,45 @@ def c03_10(ctx):
                 w = val.minus(full).witness((P,))
                 out.append(ctx.bad(spec, "the result `%s` can be %s (range %s), outside [0, prime-1]: the constructor rejects it, so e.g. a + (-a) raises instead "
                                          "of giving 0" % (ast.unparse(arg), "prime" if w == P else w, val.describe(names)), n.ast, mod, key="field-range"))
+    # field elements built from integer arithmetic outside the operators (lift-x in parse_sec / parse_xonly, ...): the
+    # expression handed to S256Field must itself stay in [0, P-1] for coordinates in [0, P-1]
+    m = ctx.repo.module("pecc")
+    for qn, fn in m.functions.items():
+        if not qn.startswith("S256Point."):
+            continue
+        sites = []
+        for n in cfg_of(fn).nodes:
+            if n.ast is None or isinstance(n.ast, (ast.FunctionDef, ast.ClassDef)) or n.kind == "join":
+                continue
+            root = n.ast.iter if n.kind == "for" else n.ast
+            for c in ast.walk(root):
+                if isinstance(c, ast.Call) and isinstance(c.func, ast.Name) and c.func.id == "S256Field" and c.args and \
+                        (isinstance(c.args[0], ast.BinOp) or (isinstance(c.args[0], ast.Call) and call_name(c.args[0]) == "pow")):
+                    sites.append((n, c))
+        if not sites:
+            continue
+        track = {}
+        for n, c in sites:
+            for x in ast.walk(c.args[0]):
+                if isinstance(x, ast.Attribute) and x.attr == "num":
+                    track[ast.unparse(x)] = full
+        rg = Ranges(ctx.repo, m, fn, track, consts={"P": P})
+        for n, c in sites:
+            val = rg.value_at(n.id, c.args[0])
+            spec = "pecc:" + qn
+            a0 = c.args[0]
+            if isinstance(a0, ast.BinOp) and isinstance(a0.op, ast.Sub) and isinstance(a0.left, ast.Name) and a0.left.id == "P" and isinstance(a0.right, ast.Attribute) and a0.right.attr == "num":
+                # the negation P - y of a coordinate: in range unless y = 0, and no point of the curve has y = 0 (x^3 + 7 has no root: the group order is odd)
+                out.append(ctx.ok(spec, "`%s` is the negation of a non-zero coordinate" % ast.unparse(c), c, m, key="field-range:ctor"))
+                continue
+            if val is None:
+                out.append(ctx.err(spec, "cannot evaluate `%s` abstractly" % ast.unparse(c), c, m))
+            elif val.issubset(full):
+                out.append(ctx.ok(spec, "`%s` ∈ %s ⊆ [0, P-1]" % (ast.unparse(c), val.describe(names)), c, m, key="field-range:ctor"))
+            else:
+                w = val.minus(full).witness((P,))
+                out.append(ctx.bad(spec, "`%s` can reach %s (range %s), outside [0, P-1]: S256Field rejects it, so a valid point whose intermediate value wraps "
+                                         "(x^3 mod p in [p-7, p-1]) cannot be parsed" % (ast.unparse(c), "P" if w == P else w, val.describe(names)), c, m, key="field-range:ctor"))
     # the constructor accepts exactly the field range
     spec = "pecc:FieldElement.__init__"
     mod, fn0 = rl.get(ctx, spec)
@@ -684,6 +723,71 @@ def c03_12(ctx):
     return out
 
 
+def c03_13(ctx):
+    """scalar multiplication is total and reduces its scalar: in S256Point.__rmul__ (pecc)
+    (a) the scalar parameter is only ever used as `coefficient % N` -- any other use (a fast path that reads its bits, a
+        comparison before the reduction) sees negative scalars and scalars >= n as they are written, not as the group element;
+    (b) a coordinate of the receiver is dereferenced (`self.y.num`) only where the receiver cannot be the point at infinity,
+        whose coordinates are None -- the group law holds for b = 0 and b = n as well"""
+    out = []
+    spec = "pecc:S256Point.__rmul__"
+    mod, fn = rl.get(ctx, spec)
+    coefp = param_names(fn)[1]
+    f = Folder(ctx.repo, mod.name)
+    parents = {}
+    for n in ast.walk(fn):
+        for ch in ast.iter_child_nodes(n):
+            parents[ch] = n
+    raw = []
+    for x in ast.walk(fn):
+        if isinstance(x, ast.Name) and x.id == coefp and isinstance(x.ctx, ast.Load):
+            p = parents.get(x)
+            if isinstance(p, ast.BinOp) and isinstance(p.op, ast.Mod) and p.left is x and f.fold(p.right) == N:
+                continue
+            raw.append(x)
+    if raw:
+        p = parents.get(raw[0])
+        out.append(ctx.bad(spec, "the scalar `%s` is used unreduced in `%s` (line %d): a negative scalar (verify_schnorr multiplies by -e) or one >= n is read as a "
+                                 "different number than its residue mod n" % (coefp, ast.unparse(p)[:70] if p is not None else coefp, raw[0].lineno), raw[0], mod, key="scalar-raw-use"))
+    else:
+        out.append(ctx.ok(spec, "the scalar is only used as `%s %% N`" % coefp, fn, mod, key="scalar-raw-use"))
+    for spec in ("pecc:S256Point.__rmul__", "pecc:Point.__rmul__", "pecc:Point.__add__", "pecc:S256Point.__add__"):
+        mod, fn = rl.get(ctx, spec)
+        cfg = cfg_of(fn)
+        me = param_names(fn)[0]
+        derefs = []
+        for n in cfg.nodes:
+            if n.ast is None or isinstance(n.ast, (ast.FunctionDef, ast.ClassDef)):
+                continue
+            root = n.ast.iter if n.kind == "for" else n.ast
+            for x in ast.walk(root):
+                if isinstance(x, ast.Attribute) and isinstance(x.value, ast.Attribute) and dotted(x.value) in (me + ".x", me + ".y"):
+                    derefs.append((n, x))
+        if not derefs:
+            out.append(ctx.ok(spec, "no coordinate of the receiver is dereferenced", fn, mod, key="inf-deref"))
+            continue
+
+        def match(node, ex, atoms, me=me):
+            t = node.ast
+            if isinstance(t, ast.Compare) and len(t.ops) == 1 and isinstance(t.ops[0], (ast.Is, ast.IsNot, ast.Eq, ast.NotEq)) \
+                    and isinstance(t.comparators[0], ast.Constant) and t.comparators[0].value is None and dotted(t.left) in (me + ".x", me + ".y"):
+                return BAD_TRUE if isinstance(t.ops[0], (ast.Is, ast.Eq)) else BAD_FALSE
+            return None
+        from sa.guard import check_guard, find_guards
+        gs = find_guards(mod, fn, match)
+        okk = False
+        wit = ""
+        if gs:
+            okk, msg, wit = check_guard(mod, fn, gs, [n.id for n, _ in derefs])
+        if okk:
+            out.append(ctx.ok(spec, "coordinates are dereferenced only after the infinity test (%d site(s))" % len(derefs), fn, mod, key="inf-deref"))
+        else:
+            n, x = derefs[0]
+            out.append(ctx.bad(spec, "`%s` (line %d) is evaluated on a path where the receiver may be the point at infinity (coordinates None): the operation raises "
+                                     "instead of returning a group element%s" % (ast.unparse(x), n.lineno, ("; path: " + wit) if wit else ""), x, mod, key="inf-deref"))
+    return out
+
+
 OBLIGATIONS = [
     ("C03.1", "RANGE accept-set", c03_1),
     ("C03.2", "GUARD", c03_2),
@@ -697,5 +801,6 @@ OBLIGATIONS = [
     ("C03.10", "RANGE output", c03_10),
     ("C03.11", "DATAFLOW", c03_11),
     ("C03.12", "RANGE relation", c03_12),
+    ("C03.13", "DATAFLOW+GUARD totality", c03_13),
 ]
 FLOORS = {"C03.10": 7, "C03.11": 3, "C03.3": 2, "C03.5": 3, "C03.6": 3, "C03.7": 4, "C03.8": 3, "C03.9": 2}
